@@ -360,6 +360,7 @@ def install(I):
         "itertools.chain.from_iterable": it_chain_from,
         "itertools.accumulate": it_accumulate,
         "itertools.combinations": it_combinations,
+        "itertools.pairwise": lambda I, a, k: (lambda xs: list(zip(xs, xs[1:])))(B.iterate(I, a[0])),
         "collections.defaultdict": defaultdict,
         "collections.deque": deque,
         "contextvars.ContextVar": lambda I, a, k: CtxVar(a[0], k.get("default", CtxVar.MISSING)),
